@@ -92,13 +92,16 @@ def main():
     ck.e2('join-1x1-len3', h_ed.make(dict(entry='ed_join', nl=1, nr=1, lens=[3], q=[2], padding=[True],
                                           return_set=[False], taus=[1], comp_ops=['<='], props=P)),
           bounds=dict(len=3))
-    ck.e2('join-1x2-context', h_ed.make(dict(entry='ed_join', nl=1, nr=2, minlen=0, maxlen=2, q=[2],
-                                             padding=[True], return_set=[False, True], taus=[1], comp_ops=['<='],
-                                             missing='sym', allow_missing=[False, True], n_jobs=[1, 2],
-                                             out_sim_score=[True], props=P)), bounds=dict(len='0..2', rows='1x2'))
-    ck.e2('join-2x1-context', h_ed.make(dict(entry='ed_join', nl=2, nr=1, minlen=1, maxlen=2, q=[2],
-                                             padding=[True, False], return_set=[False], taus=[1, 2] if not quick else [1],
-                                             comp_ops=['<=', '='], props=P)), bounds=dict(len='1..2', rows='2x1'))
+    ck.e2('join-1x2-flags', h_ed.make(dict(entry='ed_join', nl=1, nr=2, lens=[0, 1], q=[2],
+                                           padding=[True], return_set=[False, True], taus=[1], comp_ops=['<='],
+                                           missing='sym', allow_missing=[False, True], n_jobs=[1, 2],
+                                           out_sim_score=[True, False], props=P)), bounds=dict(len='0..1', rows='1x2'))
+    ck.e2('join-1x2-context', h_ed.make(dict(entry='ed_join', nl=1, nr=2, lens_l=[2], lens_r=[1] if quick else [0, 1, 2],
+                                             q=[2], padding=[True], return_set=[False], taus=[1], comp_ops=['<='],
+                                             props=P)), bounds=dict(len='<=2', rows='1x2'))
+    ck.e2('join-2x1-context', h_ed.make(dict(entry='ed_join', nl=2, nr=1, lens_l=[1] if quick else [1, 2], lens_r=[2], q=[2],
+                                             padding=[True] if quick else [True, False], return_set=[False],
+                                             taus=[1], comp_ops=['<='] if quick else ['<=', '='], props=P)), bounds=dict(len='1..2', rows='2x1'))
     if not quick:
         ck.e2('join-1x1-len23-q3', h_ed.make(dict(entry='ed_join', nl=1, nr=1, lens=[2, 3], q=[3], padding=[True],
                                                   return_set=[False], taus=[1, 2], comp_ops=['<='], props=P)))
